@@ -105,6 +105,15 @@ func secRun(in []byte) (interface{}, error) {
 		takeAborts()
 		paths = append(paths, "sync with an unknown auth command: failed checkpoint load / connection errors / restarts")
 	}
+	if raw, ok := cfg.Sub["fanin"]; ok {
+		// several syncers sharing the full-sync semaphore, one of them refused until its retries are exhausted: the restarts and the
+		// tool's last words ("max amount of failures reached ...") are log lines like any other
+		if _, err := faninRun(raw); err != nil {
+			return nil, err
+		}
+		takeAborts()
+		paths = append(paths, "several sources: refused PSYNCs, restarts, retries exhausted (abort message)")
+	}
 	if raw, ok := cfg.Sub["fs"]; ok {
 		if _, err := fsRun(raw); err != nil {
 			return nil, err
